@@ -166,6 +166,32 @@ class SyncSem(Sem):
         return state
 
 
+class WroteSem(Sem):
+    """state: frozenset of booleans: the contents parameter has been written to the file object on this path"""
+    base_exc_escapes = False
+
+    def __init__(self, fvar, params):
+        self.fvar, self.params = fvar, set(params)
+        self.closes = []
+
+    def join2(self, a, b):
+        return a | b
+
+    def transfer(self, st, state):
+        for c in calls_in(st):
+            f = c.func
+            if isinstance(f, ast.Attribute) and f.attr in ("write", "writelines") and isinstance(f.value, ast.Name) and f.value.id == self.fvar and \
+                    c.args and isinstance(c.args[0], ast.Name) and c.args[0].id in self.params:
+                return frozenset([True])
+        return state
+
+    def with_exit(self, st, state, kind="normal"):
+        for it in st.items:
+            if isinstance(it.optional_vars, ast.Name) and it.optional_vars.id == self.fvar and kind != "exc" and state is not None:
+                self.closes.append(state)
+        return state
+
+
 def check(ctx):
     repo = ctx.repo
     cg = CallGraph(repo)
@@ -270,6 +296,13 @@ def _check_write_routine(ctx, W):
         ctx.ob("C17-R1", where, f"file '{fvar}': write->flush->fsync complete on all {n_paths} (phase,flag) path states with flag true",
                ok, node=(bad[0][2] if bad else ocall), construct=f"durability of {fvar} = {src(ocall)}", msg=msg,
                path=(f"entry {where} -> {bad[0][3]}" if bad else None))
+        # the value itself is written: on every normal path the contents parameter goes into this file before it is closed
+        if wnode is not None:
+            ws = WroteSem(fvar, W.params())
+            ws.run(W.node, frozenset([False]))
+            okw = bool(ws.closes) and all(st_ == frozenset([True]) for st_ in ws.closes)
+            ctx.ob("C17-R1", where, f"the contents parameter is written to '{fvar}' on every normal path before the file is closed", okw, node=ocall,
+                   construct=f"contents written to {fvar}", msg="a path closes (and syncs) the freshly truncated file without having written the value: the set returns and the key reads back empty")
         # the sync must exist at all for this file
         has_sync = any(dotted(c.func) in ("os.fsync", "os.fdatasync") for c in calls_in(W.node))
         ctx.ob("C17-R1", where, "an os.fsync call exists in the write routine", has_sync, node=W.node, construct="os.fsync present")
@@ -472,6 +505,12 @@ def _check_isolation(ctx, cg, writers):
     ctx.note("set_path_functions", sorted(reach))
 
 
+# functions whose mechanical mutants are swept in the thorough tier (coverage evidence, see sa/mutate.py)
+MUTATION_SCOPE = ['db/file_cache:FileCache._write_file',
+                  'db/file_cache:FileCache.update_file',
+                  'db/sys_fn_kvs:KeyValueStorage.set',
+                  'db/helpers:key_to_file_path']
+
 SEEDS = [
     Seed("drop-flush", "fault", "db/file_cache", "                f.flush()\n", "", rule="C17-R1"),
     Seed("drop-fsync", "fault", "db/file_cache", "                os.fsync(f.fileno())\n", "                pass\n", rule="C17-R1"),
@@ -480,6 +519,7 @@ SEEDS = [
          "            if use_fsync:\n                f.flush()\n                os.fsync(f.fileno())\n            f.write(new_file_contents)\n", rule="C17-R1"),
     Seed("flush-after-fsync", "fault", "db/file_cache",
          "                f.flush()\n                os.fsync(f.fileno())\n", "                os.fsync(f.fileno())\n                f.flush()\n", rule="C17-R1"),
+    Seed("write-only-when-nonempty", "fault", "db/file_cache", "            f.write(new_file_contents)\n            if use_fsync:", "            if len(new_file_contents) > 1:\n                f.write(new_file_contents)\n            if use_fsync:", rule="C17-R1"),
     Seed("kvs-no-fsync", "fault", "db/sys_fn_kvs", "serialize_obj(y), use_fsync=True)", "serialize_obj(y))", rule="C17-R2"),
     Seed("kvs-false", "fault", "db/sys_fn_kvs", "use_fsync=True)", "use_fsync=False)", rule="C17-R2"),
     Seed("submit-drops-flag", "fault", "db/file_cache", "new_file_contents, use_fsync)\n                self.file_futures[file_name] = (True",
